@@ -510,6 +510,23 @@ func stateConcurrent(e *Env) {
 	// a little initial state so that operations interact
 	pre := []tOp{{"NewChannel", []string{"#x"}}, {"Associate", []string{"#x", "me"}}, {"NewNick", []string{"a"}}, {"Associate", []string{"#x", "a"}}}
 	npre := g.Intn(len(pre) + 1)
+	lonely := false
+	if g.Pct(30) {
+		// another shape: a nick that is the only member of a channel (the client
+		// is not on it) and on a second channel as well.  The public interface
+		// can build it, and deleting that nick runs the tracker's "this emptied
+		// a channel" branch in the middle of the cascade over its channels
+		pre = []tOp{{"NewNick", []string{"a"}}, {"NewChannel", []string{"#x"}}, {"NewChannel", []string{"#y"}},
+			{"Associate", []string{"#x", "a"}}, {"Associate", []string{"#y", "a"}}}
+		if g.Pct(50) {
+			pre = append(pre, tOp{"Associate", []string{[]string{"#x", "#y"}[g.Intn(2)], "me"}})
+		}
+		if g.Pct(30) {
+			pre = append(pre, tOp{"NewNick", []string{"b"}}, tOp{"Associate", []string{"#x", "b"}})
+		}
+		npre = len(pre)
+		lonely = true
+	}
 	m0 := newModel("me")
 	for _, op := range pre[:npre] {
 		applyOp(st, op)
@@ -550,6 +567,17 @@ func stateConcurrent(e *Env) {
 				op = tOp{"GetNick", []string{u.nicks[g.Intn(len(u.nicks))]}}
 			case 3:
 				op = tOp{"GetChannel", []string{u.chans[g.Intn(len(u.chans))]}}
+			}
+			if lonely && g.Pct(25) {
+				// deletions and the readers that can see one half-way
+				switch g.Intn(4) {
+				case 0:
+					op = tOp{"DelNick", []string{"a"}}
+				case 1:
+					op = tOp{"GetNick", []string{"a"}}
+				default:
+					op = tOp{"GetChannel", []string{u.chans[g.Intn(len(u.chans))]}}
+				}
 			}
 			plans[t].ops = append(plans[t].ops, op)
 			plans[t].use = append(plans[t].use, g.Intn(3) == 0)
